@@ -1,10 +1,14 @@
 import PdeVerif.Json
 import PdeVerif.Model.Heap
+import PdeVerif.Model.HandOut
 /-
 Driver of C15: replays an operation history on the heap model (`PdeVerif.Heap.step`, the
 definitions the theorems of `Props/C15.lean` are about) at exact complex-rational values and
 reports, after every step, which handles exist, where each of them looks (buffer, offset,
-length, dtype), what is read through it, and the complete aliasing relation.
+length, dtype), what is read through it, and the complete aliasing relation.  Histories may hold
+operations on the Python list objects of the caller (`Model/HandOut.lean`: `xstep`, the definition
+the theorems `handed_out_list_is_a_copy`, `no_list_edit_changes_world`, ... are about); every record
+also lists the content and the owners of all list objects.
 -/
 namespace PdeVerif.Drv.C15
 open Lean PdeVerif PdeVerif.Heap
@@ -198,26 +202,66 @@ def aliasPairs (s : State CQ) : List Json :=
 def staleData (s : State CQ) : List Nat :=
   (s.objs.zipIdx).filterMap (fun (o, i) => if s.dviews[i]? == some o.view then none else some i)
 
-def replay (G : List Grid) : State CQ → List Snap → List (Op CQ) → List Json
+def parseEdit (j : Json) : Except String ListEdit := do
+  match (← fldS j "e") with
+  | "reverse" => pure .reverse
+  | "sort" => pure .sort
+  | "setItem" => do pure (.setItem (← fldN j "k") (← fldN j "x"))
+  | "pop" =>
+    match fldOpt j "k" with
+    | some (.num n) => if n.exponent = 0 && n.mantissa ≥ 0 then pure (.pop (some n.mantissa.toNat))
+                       else .error "bad index"
+    | _ => pure (.pop none)
+  | "append" => do pure (.append (← fldN j "x"))
+  | "insert" => do pure (.insert (← fldN j "k") (← fldN j "x"))
+  | "delItem" => do pure (.delItem (← fldN j "k"))
+  | "clear" => pure .clear
+  | "extend" => do pure (.extend (← fldNs j "xs"))
+  | s => .error s!"unknown list edit {s}"
+
+/-- operations on list objects, or any operation of the heap model -/
+def parseXOp (j : Json) : Except String (XOp CQ) := do
+  match (← fldS j "op") with
+  | "fieldsOf" => do pure (.fieldsOf (← fldN j "c"))
+  | "labelsOf" => do pure (.labelsOf (← fldN j "c"))
+  | "userList" => do pure (.userList (← fldNs j "hs"))
+  | "mkCollFrom" => do pure (.mkCollFrom (← fldN j "l") (← fldB j "copy") (← optDT j "dt"))
+  | "edit" => do pure (.edit (← fldN j "l") (← parseEdit j))
+  | _ => do pure (.heap (← parseOp j))
+
+def showKind : ListKind → String
+  | .fields => "fields" | .labels => "labels" | .user => "user"
+
+def jLists (w : World CQ) : Json :=
+  Json.arr (w.lists.map (fun L => Json.mkObj [("kind", Json.str (showKind L.kind)),
+    ("items", toJson L.items), ("owners", toJson L.owners)])).toArray
+
+def replay (adopts : Bool) (G : List Grid) : World CQ → List Snap → List (XOp CQ) → List Json
   | _, _, [] => []
-  | s, prev, op :: ops =>
-    match step G s op with
+  | w, prev, op :: ops =>
+    match xstep adopts G w op with
     | .error e =>
+      let s := w.heap
       Json.mkObj [("err", Json.str (showErr e)), ("n", toJson s.objs.length),
         ("ch", Json.arr #[]), ("al", Json.arr (aliasPairs s).toArray),
-        ("stale", toJson (staleData s))] :: replay G s prev ops
-    | .ok s' =>
+        ("stale", toJson (staleData s)), ("lists", jLists w)] :: replay adopts G w prev ops
+    | .ok w' =>
+      let s' := w'.heap
       let snap := snapshot s'
       Json.mkObj [("err", Json.null), ("n", toJson s'.objs.length),
         ("ch", Json.arr (changed prev snap).toArray), ("al", Json.arr (aliasPairs s').toArray),
-        ("stale", toJson (staleData s'))]
-        :: replay G s' snap ops
+        ("stale", toJson (staleData s')), ("lists", jLists w')]
+        :: replay adopts G w' snap ops
 
-/-- {"grids":[{"mask":"0110","dim":1},..],"ops":[..]} -> one record per operation -/
+/-- {"grids":[{"mask":"0110","dim":1},..],"ops":[..],"adopts":true} -> one record per operation.
+`adopts`: the constructor keeps the list object it is given (collection.py:99); absent = true -/
 def runH (j : Json) : Except String Json := do
   let gs ← getL parseGrid (← fld j "grids")
-  let ops ← getL parseOp (← fld j "ops")
-  pure (Json.arr (replay gs {} [] ops).toArray)
+  let ops ← getL parseXOp (← fld j "ops")
+  let adopts : Bool := match fldOpt j "adopts" with
+    | some (.bool b) => b
+    | _ => true
+  pure (Json.arr (replay adopts gs {} [] ops).toArray)
 
 def handlers : List (String × Handler) := [("c15.run", runH)]
 end PdeVerif.Drv.C15
